@@ -572,6 +572,16 @@ static Space make_space(const std::string& id) {
       S.ops.push_back(opSet(r, "u_0", 7.5L)); S.ops.push_back(mk(GETNAME, r));
       if (r == 0) { S.ops.push_back(opEval(r, "source_rho_u", "S", 0)); S.ops.push_back(opInit(r, "heateq_2d_steady_const", "no_such_solution")); S.ops.push_back(opInit(r, "euler_1d", "euler_1dd")); }
     }
+  } else if (id == "c16v") {
+    // failed calls on handles that own large vectors: a failed masa_init on an existing (selected or not) handle must leave the vectors of
+    // every instance untouched; 600 entries = 4800 bytes, beyond any small-buffer threshold
+    S.solutions = {"radiation_integrated_intensity", "cp_normal"}; S.key_last = false;
+    for (int r = 0; r < (g_tier ? 2 : 1); r++) {
+      S.ops.push_back(opInit(r, "a", "radiation_integrated_intensity")); S.ops.push_back(opInit(r, "b", "cp_normal")); S.ops.push_back(opSel(r, "a")); S.ops.push_back(opSel(r, "b"));
+      S.ops.push_back(opSetVec(r, "vec_mean", 600)); S.ops.push_back(opSetVec(r, "vec_data", 600)); S.ops.push_back(opGetVec(r, "vec_mean")); S.ops.push_back(opGetVec(r, "vec_data"));
+      S.ops.push_back(opInit(r, "a", "no_such_solution")); S.ops.push_back(opInit(r, "b", "cp_normall")); S.ops.push_back(opInit(r, "c", "radiation")); S.ops.push_back(opSel(r, "nosuch"));
+      if (r == 0) { S.ops.push_back(opEval(r, "source_u", "S", 0)); S.ops.push_back(opEval(r, "posterior_mean", "", 0)); }
+    }
   } else if (id == "c12s") {
     // small registry alphabet for the all-sequences exploration (no state merging)
     S.solutions = {"euler_1d", "heateq_2d_steady_const"};
@@ -580,8 +590,10 @@ static Space make_space(const std::string& id) {
   } else if (id == "c12r") {
     // re-initialisation of a handle whose instance owns modified vectors: two handles holding the radiation solution (heap-allocated
     // vectors per instance), every vector may be replaced, then the same handle is initialised again (same and other solution)
-    S.solutions = {"radiation_integrated_intensity", "euler_1d"}; S.key_last = false;
+    S.solutions = {"radiation_integrated_intensity", "euler_1d", "cp_normal"}; S.key_last = false;
     for (const char* h : {"a", "b"}) { S.ops.push_back(opInit(0, h, "radiation_integrated_intensity")); S.ops.push_back(opSel(0, h)); }
+    // two instances of the other vector-owning solution: per-instance data must not be shared between them
+    S.ops.push_back(opInit(0, "a", "cp_normal")); S.ops.push_back(opInit(0, "b", "cp_normal")); S.ops.push_back(opSetVec(0, "vec_data", 2)); S.ops.push_back(opGetVec(0, "vec_data")); S.ops.push_back(opEval(0, "posterior_mean", "", 0));
     S.ops.push_back(opInit(0, "a", "euler_1d")); S.ops.push_back(opInit(1, "a", "radiation_integrated_intensity"));
     for (const char* vn : {"vec_mean", "vec_amp", "vec_stdev"}) { S.ops.push_back(opSetVec(0, vn, 3)); S.ops.push_back(opGetVec(0, vn)); }
     S.ops.push_back(opSetVec(1, "vec_stdev", 3)); S.ops.push_back(opSetVecRel(0, "vec_stdev", 1));
@@ -598,14 +610,23 @@ static Space make_space(const std::string& id) {
     std::vector<std::string> names; if (!d.pn.empty()) { names.push_back(d.pn.front()); if (d.pn.size() > 2) names.push_back(d.pn[d.pn.size() / 2]); if (d.pn.size() > 1) names.push_back(d.pn.back()); }
     if (!d.vn.empty() && !g_tier && names.size() > 1) names.resize(1);  // solutions with vector parameters: the vector part of the space is the large one
     names.push_back("no_such_parameter"); names.push_back("");
-    std::vector<LD> vals = {1.5L, (LD)MARKER}; if (g_tier) vals.push_back(-2.25L);
-    for (auto& n : names) { for (LD v : vals) S.ops.push_back(opSet(0, n, v)); S.ops.push_back(opGet(0, n)); }
+    // values: ordinary, the "uninitialised" marker itself, and the marker's neighbours (a value that sanity_check classifies as the marker but
+    // that is not bit-equal to it: next double towards zero; the decimal literal in long double, which differs from the double-rounded marker)
+    std::vector<LD> vals = {1.5L, (LD)MARKER, (LD)std::nextafter(MARKER, 0.0)}; if (g_tier) vals.push_back(-2.25L);
+    for (size_t ni = 0; ni < names.size(); ni++) { for (size_t vi = 0; vi < vals.size(); vi++) { if (vi == 2 && ni != 0 && !g_tier) continue; S.ops.push_back(opSet(0, names[ni], vals[vi])); } S.ops.push_back(opGet(0, names[ni])); }
     S.ops.push_back(mk(INITPARAM, 0)); S.ops.push_back(mk(PURGE, 0)); S.ops.push_back(mk(SANITY, 0)); S.ops.push_back(mk(DISPLAY, 0));
     for (size_t vi = 0; vi < d.vn.size(); vi++) { const std::string& vn = d.vn[vi]; std::vector<int> lens = {3}; if (vi == 0 || g_tier) lens.push_back(0); if (g_tier) { lens.push_back(1); lens.push_back(30); } for (int n : lens) S.ops.push_back(opSetVec(0, vn, n));
       S.ops.push_back(opSetVecRel(0, vn, 1)); if (vi == 0 || g_tier) { S.ops.push_back(opSetVecRel(0, vn, 2)); S.ops.push_back(opSetVecRel(0, vn, 3)); }  // extend by one entry / drop the last / store the same contents again
       S.ops.push_back(opGetVec(0, vn)); }
     if (EVAL_OF.count(sol)) S.ops.push_back(opEval(0, EVAL_OF[sol].first, EVAL_OF[sol].second, 0));  // evaluators use the values (and vector lengths) last set
     if (!d.vn.empty()) { S.ops.push_back(opSetVec(0, "no_such_vector", 2)); S.ops.push_back(opGetVec(0, "no_such_vector")); S.ops.push_back(mk(DISPLAYVEC, 0)); }
+  } else if (id == "c11l") {
+    // the long double registry's scalar store: the decimal literal -12345.67L is classified as "uninitialised" by sanity_check but is not
+    // bit-equal to the marker the library writes ((long double)(double)-12345.67)
+    std::string sol = g_solution; S.solutions = {sol}; defaults_for(sol); const Sol& d = DEFAULTS[1][sol];
+    S.prefix = {opInit(1, "s", sol)};
+    if (!d.pn.empty()) { const std::string& n = d.pn.front(); for (LD v : {1.5L, (LD)MARKER, -12345.67L}) S.ops.push_back(opSet(1, n, v)); S.ops.push_back(opGet(1, n)); if (d.pn.size() > 1) { S.ops.push_back(opSet(1, d.pn.back(), -12345.67L)); S.ops.push_back(opGet(1, d.pn.back())); } }
+    S.ops.push_back(mk(INITPARAM, 1)); S.ops.push_back(mk(PURGE, 1)); S.ops.push_back(mk(SANITY, 1)); S.ops.push_back(mk(DISPLAY, 1));
   } else if (id == "c11all" || id == "c11allp") {
     // leak sweep: set_param on EVERY registered name, one step from the default state and from the purged state
     std::string sol = g_solution; S.solutions = {sol}; defaults_for(sol); const Sol& d = DEFAULTS[0][sol];
